@@ -56,14 +56,18 @@ def markSlice (a : Array Bool) (first count stride : Nat) : Except Err (Array Bo
     if first < a.size then markSlice (a.set! first false) (first + stride) k stride
     else .error .oob
 
+/-- `multiple = (start / n + 1) * n; if (multiple % 2 == 0) multiple += n;` -/
+def firstOddMultiple (start n : Nat) : Nat :=
+  let multiple0 := (start / n + 1) * n
+  if multiple0 % 2 == 0 then multiple0 + n else multiple0
+
 /-- The marking loop over the known primes (`index` runs from 1). -/
 def markLoop (s : State) (start finish : Nat) : Nat → Nat → Array Bool → Except Err (Array Bool)
   | 0, _, a => .ok a
   | fuel + 1, index, a =>
     if index < s.size && s.get index * s.get index ≤ finish then
       let n := s.get index
-      let multiple0 := (start / n + 1) * n
-      let multiple := if multiple0 % 2 == 0 then multiple0 + n else multiple0
+      let multiple := firstOddMultiple start n
       if multiple > finish then markLoop s start finish fuel (index + 1) a
       else
         match markSlice a ((multiple - start) / 2) (1 + (finish - multiple) / (2 * n)) n with
@@ -178,6 +182,18 @@ inductive Op where
   | iterDel (slot : Nat)
   deriving Repr
 
+/-- Admissible arguments — the range in which the model's `Nat` arithmetic coincides with the
+C++ `unsigned` arithmetic: `generate_primes` limits below `2^31`, sieve sizes positive and below
+`2^30` bits (`start + 2*segment` cannot wrap), iterator limits below `2^32 - 1` (`_limit + 1`). -/
+def opOk : Op → Bool
+  | .gen limit => decide (limit < maxLimit)
+  | .setSize kib => decide (0 < kib) && decide (kib < 2 ^ 17)
+  | .setBits bits => decide (0 < bits) && decide (bits < 2 ^ 30)
+  | .iterNew _ limit => decide (limit < 2 ^ 32 - 1)
+  | _ => true
+/-- every op of a history is admissible -/
+def opsOk (ops : List Op) : Bool := ops.all opOk
+
 structure World where
   s : State
   iters : List (Nat × Iter)
@@ -211,7 +227,12 @@ def step (w : World) : Op → Except Err (World × List Nat)
   | .setClear b => .ok ({ w with s := { w.s with clearFlag := b } }, [])
   | .setSize k => .ok ({ w with s := { w.s with sieveBits := k * 1024 * 8 } }, [])
   | .setBits b => .ok ({ w with s := { w.s with sieveBits := b } }, [])
-  | .iterNew slot limit => .ok ({ w with iters := setIter w.iters slot { index := 0, limit := limit } }, [])
+  | .iterNew slot limit =>
+    -- constructing into an occupied slot destroys the iterator that lived there
+    let s1 := match lookupIter w.iters slot with
+      | some _ => iterDestroy w.s
+      | none => w.s
+    .ok ({ s := s1, iters := setIter w.iters slot { index := 0, limit := limit } }, [])
   | .iterNext slot count =>
     match lookupIter w.iters slot with
     | none => .ok (w, [])
